@@ -239,7 +239,10 @@ def ev_expr(heap, env, e):
     if t == "g":
         return heap.roots[e[1]]
     if t == "l":
-        return env[e[1]]
+        v = env[e[1]]
+        if v is UNKNOWN:
+            raise Unspec("operand is not determined")      # (also when it sits inside an array literal)
+        return v
     if t == "hm":
         h = heap.hm()
         for k, v in e[1]:
